@@ -50,11 +50,16 @@ class EpochTables(Space):
         nev, nt, outs = 0, False, []
         for centre in ('peak', 'trough'):
             df = mk_table(sides, centre)
+            ik = (sum(sides) + (centre == 'trough')) % 3      # row labels: default / offset (a slice, limit_df output) / duplicate
+            if ik == 1:
+                df.index = range(9, 9 + len(df))
+            elif ik == 2:
+                df.index = [i % 2 for i in range(len(df))]
             sc = sample_cols(centre)
             closing = df[sc['next']].tolist()
             for E in range(1, T + 1):
                 nev += 1
-                sgn = {'site': 'epoch_df', 'centre': centre}
+                sgn = {'site': 'epoch_df', 'centre': centre, 'index': ('default', 'offset', 'duplicate')[ik]}
                 obs = {'sides': sides, 'sig_len': T, 'epoch_len': E}
                 try:
                     out = epoch_df(df.copy(), T, E)
